@@ -56,6 +56,7 @@ def literal_value(node):
 
 
 _N = [0]
+_NAMED = {}
 
 
 class C13(Check):
@@ -124,16 +125,16 @@ class C13(Check):
         if True:
             _N[0] += 1
             src = (f"from typing import Iterable\nclass Ev:\n    def m(self, p: int = {v!r}) -> float: ...\n")
-            g = {}
-            exec(src, g)
-            Ev = g["Ev"]
+            for modname in ("model_module", "func_adl_xaod_model"):
+                g = {"__name__": modname}
+                exec(src, g)
 
-            def typed():
-                s = DS(Ev).Select("lambda e: e.m()")
-                lam = s.query_ast.args[1]
-                call = lam.body
-                return lam, (call.args[0] if isinstance(call, ast.Call) and call.args else None)
-            yield "typed-default", typed
+                def typed(Ev=g["Ev"]):
+                    s = DS(Ev).Select("lambda e: e.m()")
+                    lam = s.query_ast.args[1]
+                    call = lam.body
+                    return lam, (call.args[0] if isinstance(call, ast.Call) and call.args else None)
+                yield "typed-default" + ("" if modname == "model_module" else ":module-named-func_adl_*"), typed
         # captured closure variable / global
         fn = f"<c13mod{_N[0]}>"
         _N[0] += 1
@@ -153,6 +154,20 @@ class C13(Check):
             return lam, lam.body.args[0]
         yield "captured-closure", closure
         yield "captured-global", glob
+
+        def named():
+            if "mod" not in _NAMED:
+                fn2 = "<c13named>"
+                text2 = "G = None\ndef by_name(e): return e.f(G)\ndef build(ds):\n    return ds.Select(by_name)\n"
+                linecache.cache[fn2] = (len(text2), None, text2.splitlines(True), fn2)
+                g2 = {}
+                exec(compile(text2, fn2, "exec"), g2)
+                _NAMED["mod"] = g2
+            g2 = _NAMED["mod"]
+            g2["G"] = v
+            lam = g2["build"](DS()).query_ast.args[1]
+            return lam, lam.body.args[0]
+        yield "captured-global:same-function-object", named
 
     def _check_value(self, v, res, tag):
         for name, thunk, want in self._entry_points(v):
